@@ -6,9 +6,9 @@ import glob, os
 # source that Cargo.lock pins and verified against the contracts the other units assume (prelude/core.rs, lemmas/apply.rs).
 D = DEP_TX
 UNIT = Unit(
-    name="deptx", uses="group_core_axioms",
+    name="deptx", uses="group_core_axioms, axiom_ser_len, axiom_cov_weight_bound, axiom_ser_len_bound",
     prelude=["core.rs", "raw.rs", "iter.rs", "crypto.rs", "state_abs.rs"],
-    lemmas=["sums.rs", "iterlem.rs", "coinsview.rs", "tips.rs", "apply.rs"],
+    lemmas=["sums.rs", "iterlem.rs", "coinsview.rs", "tips.rs", "apply.rs", "deptx.rs"],
     items=[
         TypeItem("src/state.rs", "struct", "UnsealedState"),
         Fn(D, "is_well_formed", impl="Transaction", home="C02", implicit_props=("C09", "C02"),
@@ -16,6 +16,12 @@ UNIT = Unit(
            rewrites=[("R3", 0)],
            loops=[Loop(0, binder="it", invariants=[
                C("seen", "refs_of(it.seq(), self.outputs@) && (output <==> forall|i: int| 0 <= i < it.index@ ==> (#[trigger] self.outputs@[i]).value.0 <= MAX_COINVAL.0)", "C02")])]),
+        Fn(D, "weight", impl="Transaction", home="C05", implicit_props=("C09", "C05"), **tx_weight(),
+           rewrites=[("ROOT", "iter", 0, "vec_iter", True), ("ANF", "sum", 0, 2, {0: """proof { let covs = self.covenants@; let ws = __c0@;
+               assert forall|i: int| 0 <= i < covs.len() implies (#[trigger] ws[i]) as nat == spec_cov_weight_b(covs[i]@) by { }
+               lemma_cov_sum_fsum(ws, covs, covs.len() as int); assert(ws.take(ws.len() as int) =~= ws); }"""})],
+           injects=[Inject(("after_let", "raw_length"), "proof { assert(raw_length as nat == spec_ser_len(*self)); }")],
+           closures=[Closure(0, "scr: &Bytes", "(r: u128)", ensures=[C("w", "r as nat == spec_cov_weight_b(scr@)", "C05")])]),
         Fn(D, "base_fee", impl="Transaction", home="C05", implicit_props=("C09", "C05"), **tx_base_fee(),
            sig_subst=[("cov_to_weight: impl Fn(&[u8]) -> u128", "cov_to_weight: impl Fn(&[u8]) -> u128")],
            injects=[Inject("entry", "proof { let w = spec_tx_weight(*self) as u128; let m = fee_multiplier; let p = if w * m > u128::MAX { u128::MAX } else { (w * m) as u128 }; assert(p >> 16 == p / 65536) by (bit_vector); broadcast use axiom_weight_bound; }")]),
